@@ -32,7 +32,7 @@ func exhArrays(t mon.Tier) [][]any {
 	return arraysK3N4
 }
 
-var c01Profiles = []gen.Profile{gen.PDefault, gen.PTiny, gen.PDeep, gen.PNulls, gen.PObjects, gen.PNumbers}
+var c01Profiles = []gen.Profile{gen.PDefault, gen.PTiny, gen.PDeep, gen.PNulls, gen.PObjects, gen.PNumbers, gen.PSyntaxy}
 
 // c01Judge runs the diff-then-patch round trip on the in-memory diff and
 // judges it. It is shared by the strata of C01.
